@@ -131,10 +131,13 @@ class Ctx:
         self.cov["leanchecker"] = (rc == 0)
 
     # ---- step 3: differential ------------------------------------------------------------
-    def build_harness(self, pkg):
-        """Compile /repo/<pkg> with the harness sources overlaid; returns the test binary path."""
+    def build_harness(self, pkg, only=None):
+        """Compile /repo/<pkg> with the harness sources overlaid; returns the test binary path.
+        `only` = list of harness file names: build a binary holding just the common scaffolding and those files
+        (one broken harness file then cannot take the other properties' checks down)."""
         hdir = os.path.join(VERIF, "go/harness")
-        gen = os.path.join(BUILD, "harness-" + pkg)
+        tag = "" if not only else "-" + hashlib.md5(",".join(sorted(only)).encode()).hexdigest()[:8]
+        gen = os.path.join(BUILD, "harness-" + pkg + tag)
         os.makedirs(gen, exist_ok=True)
         overlay = {}
         common = open(os.path.join(hdir, "common/zz_verif_common_test.go.in")).read().replace("package PKG", "package " + pkg)
@@ -143,11 +146,11 @@ class Ctx:
             open(cpath, "w").write(common)
         overlay[os.path.join(REPO, pkg, "zz_verif_common_test.go")] = cpath
         for fn in sorted(os.listdir(os.path.join(hdir, pkg))):
-            if fn.endswith(".go"):
+            if fn.endswith(".go") and (only is None or fn in only):
                 overlay[os.path.join(REPO, pkg, fn)] = os.path.join(hdir, pkg, fn)
         ov = os.path.join(gen, "overlay.json")
         json.dump({"Replace": overlay}, open(ov, "w"))
-        exe = os.path.join(BUILD, pkg + ".test")
+        exe = os.path.join(BUILD, pkg + tag + ".test")
         rc, out, dt = sh(["go", "test", "-c", "-tags", "verif", "-vet=off", "-overlay", ov, "-o", exe, "./" + pkg], cwd=REPO, env=GOENV, timeout=900)
         log(f"go test -c ./{pkg} rc={rc} {dt:.1f}s")
         if rc != 0:
